@@ -62,6 +62,8 @@ func (f *Rem) Call(s *slip.Scope, args slip.List, depth int) (result slip.Object
 		var z big.Int
 		_ = z.Rem((*big.Int)(num), div)
 		result = reduceNumber((*slip.Bignum)(&z))
+	case *slip.Ratio:
+		result = reduceNumber(truncate(s, f, args, depth)[1])
 	case slip.Real:
 		div := (d.(slip.Real)).RealValue()
 		nf := num.RealValue()
